@@ -33,7 +33,7 @@ ASSUMPTIONS = ["same outcome class required (ok / not converged / exception type
 
 
 def _edit(net, g, cnt):
-    kind = g.C(["pq", "pq", "scaling", "tap", "vm", "length", "switch", "switch", "in_service", "in_service", "create", "remove"])
+    kind = g.C(["pq", "pq", "scaling", "tap", "vm", "length", "switch", "switch", "in_service", "in_service", "create", "remove", "swap"])
     cnt["edits"] += 1
     if kind == "pq":
         el = g.C(["load", "sgen"])
@@ -74,6 +74,14 @@ def _edit(net, g, cnt):
             pp.create_load(net, b, g.R(0, 0.5), g.R(-0.1, 0.2), const_z_p_percent=g.R(0, 50) if g.B(0.3) else 0.)
         else:
             pp.create_sgen(net, b, g.R(0, 0.5), g.R(-0.1, 0.1))
+    elif kind == "swap":
+        # same number of rows, other index: one element removed and another one created
+        el = g.C(["load", "sgen"])
+        if len(net[el]) > 1:
+            net[el].drop(g.C(list(net[el].index)), inplace=True)
+            b = int(g.C(list(net.bus.index)))
+            (pp.create_load if el == "load" else pp.create_sgen)(net, b, g.R(0, 0.5), g.R(-0.1, 0.1))
+            cnt["swap_edits"] = cnt.get("swap_edits", 0) + 1
     elif kind == "remove":
         el = g.C(["load", "sgen"])
         if len(net[el]) > 1:
@@ -206,7 +214,7 @@ def _find_cut(net, g):
     return best
 
 
-COUNTERS = ["restore_after_blackout", "restore_with_internal_bus", "compared_calcs", "init_results_runs", "init_results_after_nan", "dc_runs", "sc_runs", "edits", "switch_edits",
+COUNTERS = ["swap_edits", "restore_after_blackout", "restore_with_internal_bus", "compared_calcs", "init_results_runs", "init_results_after_nan", "dc_runs", "sc_runs", "edits", "switch_edits",
             "failed_calcs_in_history", "alternate_root"]
 
 
@@ -347,6 +355,29 @@ def run_case(seed, tier, case_no):
                     cf.res_bus.loc[nanb, ["vm_pu", "va_degree"]] = fresh.res_bus.loc[nanb, ["vm_pu", "va_degree"]].values
                     if _outcome(fn, cf, kw) == "ok" and _compare(name, cf, fresh, kw) is None:
                         mech = "init_results_flat_start_of_new_and_auxiliary_buses"
+                if mech is None and before is not None and o_h != "ok":
+                    # the previous results themselves (buses that had a result) are far from the solution of the edited tables:
+                    # Newton-Raphson started there leaves its basin of attraction, no start value is missing or misplaced
+                    pb, fb = before.res_bus, fresh.res_bus
+                    both = pb.vm_pu.notna().values & fb.vm_pu.reindex(pb.index).notna().values
+                    if both.any():
+                        vp_ = pb.vm_pu.values[both] * np.exp(1j * np.deg2rad(pb.va_degree.values[both]))
+                        vf_ = fb.vm_pu.reindex(pb.index).values[both] * np.exp(1j * np.deg2rad(fb.va_degree.reindex(pb.index).values[both]))
+                        if np.max(np.abs(vp_ - vf_)) > 0.1:
+                            # ... and it still fails when every missing start value (buses and internal buses without previous
+                            # result) is replaced by the solution itself
+                            cf2 = copy.deepcopy(before)
+                            nb_ = cf2.res_bus.vm_pu.isna().values
+                            cf2.res_bus.loc[nb_, ["vm_pu", "va_degree"]] = fresh.res_bus.reindex(cf2.res_bus.index).loc[nb_, ["vm_pu", "va_degree"]].values
+                            for t_ in ("trafo3w", "xward"):
+                                rt = "res_" + t_
+                                if len(cf2[t_]) and rt in cf2 and "vm_internal_pu" in cf2[rt] and "vm_internal_pu" in fresh[rt] \
+                                        and len(cf2[rt]) == len(fresh[rt]):
+                                    ni_ = cf2[rt].vm_internal_pu.isna().values
+                                    for c_ in ("vm_internal_pu", "va_internal_degree"):
+                                        cf2[rt].loc[ni_, c_] = fresh[rt][c_].values[ni_]
+                            if _outcome(fn, cf2, kw) != "ok":
+                                mech = "init_results_previous_state_far_from_solution"
                 watch = [b_ for b_ in watch if b_ in fva.index and not np.isnan(fva.at[b_])]
                 if watch:
                     vw = fresh.res_bus.vm_pu.loc[watch].values * np.exp(1j * np.deg2rad(fva.loc[watch].values))
